@@ -22,7 +22,7 @@ from __future__ import annotations
 
 import ast
 
-from ..astutil import attr_chain, callee_name, calls, is_name, is_self_attr, text
+from ..astutil import call_recv, attr_chain, callee_name, calls, is_name, is_self_attr, text
 from ..core import Result
 from ..flow import MustFlow, node_calls
 from ..model import AnchorMissing, Repo, walk_no_nested
@@ -62,7 +62,7 @@ def run(repo: Repo) -> Result:
                 and isinstance(v.args[0], ast.Call)
                 and isinstance(v.args[0].func, ast.Attribute)
                 and v.args[0].func.attr == "encode"
-                and is_name(v.args[0].func.value, sparam)
+                and is_name(call_recv(v.args[0]), sparam)
                 and (
                     (v.args[0].args and isinstance(v.args[0].args[0], ast.Constant) and str(v.args[0].args[0].value).lower().replace("-", "") == "utf8")
                     or not v.args[0].args and not v.args[0].keywords
@@ -95,7 +95,7 @@ def run(repo: Repo) -> Result:
         if isinstance(node, ast.Compare) and attr_chain(node.left) == ["self", "size"] and "counted" not in st:
             res.add("C07-COUNT", w.qual, "check-before-count", "the size > limit test runs before the bytes of this write were added", w.file, node.lineno)
         for c in node_calls(node):
-            if callee_name(c) == "write" and isinstance(c.func.value, ast.Call) and callee_name(c.func.value) == "super":
+            if callee_name(c) == "write" and isinstance(call_recv(c), ast.Call) and callee_name(call_recv(c)) == "super":
                 facts_at_write.append((c, st))
 
     MustFlow(gen=gen, gen_cond=gen_cond, visit=visit).run(w.node)
@@ -113,7 +113,7 @@ def run(repo: Repo) -> Result:
     for f in repo.all_functions():
         for c in calls(f.node, nested=True):
             if callee_name(c) in BUFFER_CTORS and not isinstance(c.func, ast.Attribute) or (
-                isinstance(c.func, ast.Attribute) and c.func.attr in BUFFER_CTORS and text(c.func.value) == "io"
+                isinstance(c.func, ast.Attribute) and c.func.attr in BUFFER_CTORS and text(call_recv(c)) == "io"
             ):
                 if f.qual.startswith("liquid.output."):
                     continue
@@ -190,8 +190,8 @@ def run(repo: Repo) -> Result:
             and len(rets) == 1
             and isinstance(rets[0].value, ast.Call)
             and callee_name(rets[0].value) == "getvalue"
-            and isinstance(rets[0].value.func.value, ast.Name)
-            and rets[0].value.func.value.id in bufvars
+            and isinstance(call_recv(rets[0].value), ast.Name)
+            and call_recv(rets[0].value).id in bufvars
         )
         if not good:
             res.add("C07-TOP", f.qual, "buffer", f"{f.qual} must render into the buffer from _get_buffer() and return its getvalue()", f.file, f.line)
@@ -213,7 +213,7 @@ def run(repo: Repo) -> Result:
                     res.ob(f"{f.qual}:locals-store")
                     if f.qual != "liquid.context.RenderContext.assign":
                         res.add("C07-LOCALS", f.qual, "locals-store", f"{f.qual} writes `{text(t)}` directly, bypassing RenderContext.assign and its limit check", f.file, n.lineno)
-            if isinstance(n, ast.Call) and isinstance(n.func, ast.Attribute) and n.func.attr in ("update", "setdefault", "pop", "clear", "__setitem__") and isinstance(n.func.value, ast.Attribute) and n.func.value.attr == "locals":
+            if isinstance(n, ast.Call) and isinstance(n.func, ast.Attribute) and n.func.attr in ("update", "setdefault", "pop", "clear", "__setitem__") and isinstance(call_recv(n), ast.Attribute) and call_recv(n).attr == "locals":
                 res.ob(f"{f.qual}:locals-mutate")
                 res.add("C07-LOCALS", f.qual, f"locals-{n.func.attr}", f"{f.qual} mutates locals via .{n.func.attr}() outside RenderContext.assign", f.file, n.lineno)
     if n_store < 1:
